@@ -202,7 +202,7 @@ void MD4_Update(MD4_CTX *ctx, const void *data, size_t size)
 	saved_lo = ctx->lo;
 	if ((ctx->lo = (saved_lo + size) & 0x1fffffff) < saved_lo)
 		ctx->hi++;
-	ctx->hi += (MD4_u32plus) size >> 29;
+	ctx->hi += (MD4_u32plus) (size >> 29);
 
 	used = saved_lo & 0x3f;
 
